@@ -50,6 +50,7 @@ def cfg_kwargs(opt):
     table = {
         "base": {},
         "equal": {},
+        "noreload": {},
         "autoescape": {"autoescape": True},
         "trim_blocks": {"trim_blocks": True},
         "lstrip_blocks": {"lstrip_blocks": True},
@@ -70,7 +71,7 @@ def _fin(v):
     return f"[{v}]"
 
 
-OPTIONS = ["equal", "autoescape", "trim_blocks", "lstrip_blocks", "keep_trailing_newline", "variable_delimiters",
+OPTIONS = ["equal", "noreload", "autoescape", "trim_blocks", "lstrip_blocks", "keep_trailing_newline", "variable_delimiters",
            "block_delimiters", "finalize", "enable_async", "sandboxed", "newline_sequence", "optimized"]
 
 
@@ -79,7 +80,9 @@ def make_env(opt, loader, bcc):
     from jinja2.sandbox import SandboxedEnvironment
 
     cls = SandboxedEnvironment if opt == "sandboxed" else jinja2.Environment
-    return cls(loader=loader, bytecode_cache=bcc, cache_size=0, auto_reload=True, **cfg_kwargs(opt))
+    # "noreload": the template cache is off (cache_size=0), so every load goes to the loader and the bytecode
+    # cache; auto_reload must not matter for what the bytecode cache accepts
+    return cls(loader=loader, bytecode_cache=bcc, cache_size=0, auto_reload=(opt != "noreload"), **cfg_kwargs(opt))
 
 
 def render(env, name):
@@ -198,6 +201,8 @@ def bytes_table(opts):
 def part_a(opt):
     p = core.Part()
     opts = ("base", "base" if opt == "equal" else opt)
+    if opt == "noreload":
+        opts = ("noreload", "noreload")
     root = core.scratch_dir("c27a")
     table = bytes_table(opts)
     same_bytes = len({k for k, v in table.items() if v[1] == 0} & {k for k, v in table.items()}) and all(v[1] == 0 for v in table.values())
@@ -218,7 +223,7 @@ def part_a(opt):
         p.sig(("A", opt) + kd)
     for kind, hist, op, a, b in res.violations:
         if kind == "obs":
-            sig = "C27/stale/equal-config" if opt in ("equal",) else f"C27/cross-config/{opt}"
+            sig = "C27/stale/equal-config" if opt in ("equal", "noreload") else f"C27/cross-config/{opt}"
         else:
             sig = f"C27/cache-state/{opt}"
         p.violation(sig, {
@@ -235,6 +240,8 @@ def part_a(opt):
 def replay_a(opt, hist):
     core.import_all_jinja()
     opts = ("base", "base" if opt == "equal" else opt)
+    if opt == "noreload":
+        opts = ("noreload", "noreload")
     root = core.scratch_dir("c27r")
     s = System(root, 0, opts)
     refs = {(o, n, v): reference(o, n, v) for o in set(opts) for n in NAMES for v in (1, 2)}
@@ -636,7 +643,7 @@ def run(ctx: core.Ctx):
         "recovery = a fresh Environment over the directory as it was at the kill instant (no clean-up code has run)",
         "OSError from the cache's own write path may propagate (dump_bytecode is documented to raise); it must leave a recoverable directory",
     ]
-    opts = OPTIONS if not ctx.quick else ["equal", "autoescape", "trim_blocks", "variable_delimiters", "finalize", "enable_async", "sandboxed"]
+    opts = OPTIONS if not ctx.quick else ["equal", "noreload", "autoescape", "trim_blocks", "variable_delimiters", "finalize", "enable_async", "sandboxed"]
     shards = [("A", o) for o in opts]
     shards += [("B", (prior, fl)) for prior in ("empty", "old-entry") for fl in ("kill", "exception")]
     step = 200 if ctx.quick else 100
